@@ -385,4 +385,61 @@ theorem C16_metrics_old_counterexample :
     ∃ s, ({} : Metrics).run false [.goroutine, .shutdown, .complete, .goroutine] = some s ∧ s.stopDone = true ∧ s.bound = true := by
   exact ⟨_, rfl, rfl, rfl⟩
 
+/-! ## the JWT hook's refresh loop (D18) -/
+
+/-- invariant of the repaired loop: once Stop has completed the goroutine has returned and the key set is the one
+Stop left -/
+def JwtLoop.Good (s : JwtLoop) : Prop := s.stopDone = true → s.phase = .returned ∧ s.swaps = s.swapsAtStop
+
+theorem JwtLoop.good_step (s s' : JwtLoop) (e : JEv) (h : s.Good) (hs : s.step true e = some s') : s'.Good := by
+  obtain ⟨ph, cl, sd, sw, sa⟩ := s
+  cases e <;> simp only [JwtLoop.step] at hs
+  · -- tick
+    split at hs
+    · cases hs; intro hd; have := h hd; simp_all
+    · cases hs
+  · -- answer
+    split at hs
+    · split at hs <;> (cases hs; intro hd; have := h hd; simp_all)
+    · cases hs
+  · -- notice
+    split at hs
+    · cases hs; intro hd; have := h hd; simp_all
+    · cases hs
+  · -- stop
+    split at hs
+    · cases hs
+    · cases hs; exact h
+  · -- complete
+    split at hs
+    · cases hs
+      rename_i hc
+      intro _
+      simp only [Bool.not_true, Bool.false_or, Bool.and_eq_true, decide_eq_true_eq] at hc
+      exact ⟨hc.2, rfl⟩
+    · cases hs
+
+/-- **C16 for the JWT hook, every interleaving** of update ticks, endpoint answers and Stop: when Stop has completed
+the refresh goroutine has returned, and the key set is never replaced afterwards -/
+theorem C16_jwt_stop_leaves_nothing (evs : List JEv) (s : JwtLoop)
+    (h : ({} : JwtLoop).run true evs = some s) (hd : s.stopDone = true) : s.phase = .returned ∧ s.swaps = s.swapsAtStop := by
+  have key : ∀ (evs : List JEv) (s0 s1 : JwtLoop), s0.Good → s0.run true evs = some s1 → s1.Good := by
+    intro evs
+    induction evs with
+    | nil => intro s0 s1 hg hr; simp only [JwtLoop.run, Option.some.injEq] at hr; subst hr; exact hg
+    | cons e rest ih =>
+      intro s0 s1 hg hr
+      simp only [JwtLoop.run] at hr
+      split at hr
+      · rename_i s' hs'; exact ih s' s1 (JwtLoop.good_step s0 s' e hg hs') hr
+      · cases hr
+  exact key evs {} s (by intro hd; cases hd) h hd
+
+/-- the hook as it was: a fetch is in flight, Stop closes the channel and completes, then the endpoint answers and
+the key set is replaced — after Stop (what `jwt.lifecycle` observed as `goroutines_left=1`) -/
+theorem C16_jwt_old_counterexample :
+    ∃ s, ({} : JwtLoop).run false [.tick, .stop, .complete, .answer] = some s ∧
+      s.stopDone = true ∧ s.phase ≠ .returned ∧ s.swaps = s.swapsAtStop + 1 := by
+  exact ⟨_, rfl, rfl, by decide, rfl⟩
+
 end Lifecycle
